@@ -1047,14 +1047,14 @@ theorem src_snapshot_shape :
 /-- the mechanism behind `register_*`, per kind (`get_or_create_counter / _gauge / _histogram`): the read section
     probes the table once (`raw_entry`), the read lock is dropped BEFORE the write lock is taken (the window of
     `reg.goc.write`), and the write section probes AGAIN (`raw_entry`) before it goes through
-    `raw_entry_mut().…or_insert_with` — nothing in it sets an occupied slot (`insert`, `replace…`).  This is the
+    `raw_entry_mut()` and fills only a VACANT entry (`insert_with_hasher`, since fix 838b7f8; `or_insert_with` before) — nothing in it sets an occupied slot (`insert`, `replace…`).  This is the
     shape of `Registry.writeSection` (look up, insert only when absent) on which `conc_handle_is_registry_cell` and
     `conc_same_key_same_cell` rest; the yield points of the concurrent stream sit where the model's PCs are. -/
 theorem src_goc_rechecks_under_write_lock :
     Generated.debug_goc_read_section = [["raw_entry"], ["raw_entry"], ["raw_entry"]]
     ∧ Generated.debug_goc_write_section
-        = [["raw_entry", "raw_entry_mut", "or_insert_with"], ["raw_entry", "raw_entry_mut", "or_insert_with"],
-           ["raw_entry", "raw_entry_mut", "or_insert_with"]]
+        = [["raw_entry", "raw_entry_mut", "insert_with_hasher"], ["raw_entry", "raw_entry_mut", "insert_with_hasher"],
+           ["raw_entry", "raw_entry_mut", "insert_with_hasher"]]
     ∧ Generated.debug_goc_points
         = [["reg.goc.read", "read", "drop(shard_read)", "reg.goc.write", "write"],
            ["reg.goc.read", "read", "drop(shard_read)", "reg.goc.write", "write"],
